@@ -96,6 +96,12 @@ static URI_INLINE UriBool URI_FUNC(AppendSegment)(URI_TYPE(Uri) * uri,
 
 static URI_INLINE UriBool URI_FUNC(EqualsAuthority)(const URI_TYPE(Uri) * first,
 		const URI_TYPE(Uri) * second) {
+	/* User info and port are part of the authority, too */
+	if (URI_FUNC(CompareRange)(&first->userInfo, &second->userInfo)
+			|| URI_FUNC(CompareRange)(&first->portText, &second->portText)) {
+		return URI_FALSE;
+	}
+
 	/* IPv4 */
 	if (first->hostData.ip4 != NULL) {
 		return ((second->hostData.ip4 != NULL)
